@@ -37,6 +37,8 @@ type obsRec struct {
 	TolDet int64     `json:"tolDet,omitempty"`
 	CondLo [2]int64  `json:"condLo,omitempty"`
 	CondHi [2]int64  `json:"condHi,omitempty"`
+	// CondHiF is the tighter upper bound valid when the norm of A itself was available (after Factorize).
+	CondHiF [2]int64 `json:"condHiF,omitempty"`
 }
 
 type opRec struct {
@@ -197,6 +199,11 @@ func (k *checker) observeInvalid(ch *mat.Cholesky, pfx string) {
 
 // observeChol compares every observer of ch with the specification's answers e.
 func (k *checker) observeChol(ch *mat.Cholesky, e *obsRec, pfx string) {
+	k.observeCholN(ch, e, pfx, false)
+}
+
+// observeCholN: exactNorm says the object was produced by Factorize (the norm of A was known).
+func (k *checker) observeCholN(ch *mat.Cholesky, e *obsRec, pfx string, exactNorm bool) {
 	if !e.Valid {
 		k.observeInvalid(ch, pfx)
 		return
@@ -292,7 +299,13 @@ func (k *checker) observeChol(ch *mat.Cholesky, e *obsRec, pfx string) {
 			k.failf(pfx+"LogDet:value", "exp(LogDet) = %v, specification says %d", math.Exp(ld), e.Det)
 		}
 	})
-	k.call(pfx+"Cond", func() { k.condWithin(pfx+"Cond", ch.Cond(), e) })
+	k.call(pfx+"Cond", func() {
+		e2 := *e
+		if exactNorm && e.CondHiF[1] != 0 {
+			e2.CondHi = e.CondHiF
+		}
+		k.condWithin(pfx+"Cond", ch.Cond(), &e2)
+	})
 	// solves
 	nr := len(e.B[0])
 	B := denseOf(e.B)
@@ -488,7 +501,7 @@ func runCholCase(c *cholCase, k *checker) caseResult {
 		if c.Op.Op == "SymRankOne" && c.Op.Alpha == 0 && recv != obj {
 			sub = "matfactor:Cholesky.SymRankOne[alpha=0," + c.Recv + "]:"
 		}
-		k.observeChol(recv, c.T, sub)
+		k.observeCholN(recv, c.T, sub, c.Op.Op == "Factorize")
 		return caseResult{}
 	}
 	// the call reported failure
